@@ -1191,10 +1191,15 @@ def compile_break_or_continue_expression(compiler, expr, root):
     brackets(oneplus(maybe(keepsym(":async")) + FORM + FORM)) |
         brackets((maybe(keepsym(":async")) + FORM) >> (lambda x: [(x[0], Symbol("_"), x[1])])),
     many(FORM)])
-def compile_with_expression(compiler, expr, root, args, body):
+def compile_with_expression(compiler, expr, root, args, body, temp_var=None):
 
-    # We'll store the result of the body in a tempvar
-    temp_var = compiler.get_anon_var()
+    # We'll store the result of the body in a tempvar. When this `with`
+    # is one of several nested `with` statements that a single form is
+    # split into, they all share the outermost one's tempvar, so that
+    # the body's value is kept however the inner statements are exited.
+    nested = temp_var is not None
+    if not nested:
+        temp_var = compiler.get_anon_var()
     name = asty.Name(expr, id=mangle(temp_var), ctx=ast.Store())
     # Initialize the tempvar to None in case the `with` exits
     # early with an exception.
@@ -1203,7 +1208,7 @@ def compile_with_expression(compiler, expr, root, args, body):
     )
 
     [args] = args
-    ret = Result(stmts=[initial_assign])
+    ret = Result(stmts=[] if nested else [initial_assign])
     items = []
     was_async = None
     cbody = None
@@ -1215,7 +1220,8 @@ def compile_with_expression(compiler, expr, root, args, body):
             # We're compiling a `with` that mixes synchronous and
             # asynchronous context managers. Python doesn't support
             # this directly, so start a new `with` inside the body.
-            cbody = compile_with_expression(compiler, expr, root, [args[i:]], body)
+            cbody = compile_with_expression(
+                compiler, expr, root, [args[i:]], body, temp_var)
             break
         if not isinstance(ctx, Result):
             # In a non-recursive call, `ctx` has not yet been compiled,
@@ -1233,7 +1239,8 @@ def compile_with_expression(compiler, expr, root, args, body):
                     expr,
                     root,
                     [((is_async, variable, ctx), *args[i + 1:])],
-                    body)
+                    body,
+                    temp_var)
                 break
         variable = (
             None
@@ -1246,9 +1253,7 @@ def compile_with_expression(compiler, expr, root, args, body):
 
     if not cbody:
         cbody = compiler._compile_branch(body)
-    # When `cbody` is a nested `with`, its value is that `with`'s own
-    # temporary variable.
-    cbody += asty.Assign(expr, targets=[name], value=cbody.force_expr)
+        cbody += asty.Assign(expr, targets=[name], value=cbody.force_expr)
 
     node = asty.AsyncWith if was_async else asty.With
     ret += node(expr, body=cbody.stmts, items=items)
